@@ -428,13 +428,102 @@ def C07(V, tier):
     _focused(V, tier, "C07", gen.agg_programs(rng, 70 if tier == "quick" else 700), checks=("result",))
 
 
+# ------------------------------------------------------------------------------------------------
+# two-input operators: every arrival order (comp/Interleave.tla) on the real operator
+
+def binary_replay(V, wd, tier, prop, ops):
+    """ops: list of (op, variant-dict) e.g. ("join", {ship, local, variant}) / ("zip", {}) / ("merge", {})."""
+    from common import run_jobs, split_trace_files, validate_parallel
+    rng = random.Random(seed() + 88)
+    q = tier == "quick"
+    # script pairs: values 1..6, join keys = value mod 2; duplicates, one-sided keys, empty sides, 2 iterations
+    pairs = [([[1, 3]], [[3, 2]]), ([[1]], [[]]), ([[]], [[2, 4]]), ([[1, 2]], [[4, 6]]), ([[2, 2]], [[4]]),
+             ([[1], [2]], [[3], []]), ([[1, 2], [3]], [[2], [5, 1]]), ([[]], [[]])]
+    if not q:
+        pairs += [([[1, 3, 5]], [[1, 2]]), ([[1, 2, 3]], [[2, 3, 4]]), ([[1], [1], [2]], [[1], [2], []])]
+    cases = [{"id": f"p{i}", "left": l, "right": r} for i, (l, r) in enumerate(pairs)]
+    cpath = os.path.join(wd, "cases.ndjson")
+    with open(cpath, "w") as f:
+        for c in cases:
+            f.write(json.dumps(c) + "\n")
+    r = tlc_check(f"{SPEC}/comp/Interleave.tla", f"{SPEC}/gen/Interleave.cfg", wd, "interleave", workers=6,
+                  coverage=False, env_extra={"CASES": cpath}, timeout=900)
+    orders = r["replays"]
+    V.add_model(r, "Interleave")
+    V.coverage["arrival_orders_enumerated"] = len(orders)
+    by_case = {c["id"]: c for c in cases}
+    cap = 1400 if q else 20000
+    jobs = []
+    meta = {}
+    todo = [(o, op, var) for o in orders for (op, var) in ops]
+    rng.shuffle(todo)
+    exhaustive = len(todo) <= cap
+    for k, (o, op, var) in enumerate(todo[:cap]):
+        c = by_case[o["id"]]
+        ls, rs = [], []
+        for g, ev in enumerate(o["order"]):
+            el = {"k": ev["k"], "after": g}
+            if ev["k"] == "I":
+                el["v"] = ev["v"]
+            (ls if ev["side"] == "L" else rs).append(el)
+        node = {"id": "j", "op": op, "in": ["l", "r"]}
+        node.update(var)
+        if op == "join":
+            node.setdefault("ml", 2)
+            node.setdefault("mr", 2)
+        nodes = [{"id": "l", "op": "src", "kind": "script", "repl": "one", "scripts": [ls]},
+                 {"id": "r", "op": "src", "kind": "script", "repl": "one", "scripts": [rs]},
+                 node, {"id": "k", "op": "sink", "kind": "collect_vec", "in": ["j"]}]
+        jid = f"b{k}"
+        jobs.append({"id": jid, "prog": {"nodes": nodes}, "cfg": {"mode": "local", "par": 1}, "batch": "single",
+                     "trace": False, "gate": {"kind": "count_recv", "from_blocks": [0, 1]}, "hang_ms": 15000})
+        meta[jid] = {"ev": "case", "id": jid, "op": op, "variant": var.get("variant", ""), "ml": 2, "mr": 2,
+                     "left": c["left"], "right": c["right"], "order": o["order"], "var": var}
+    results, _ = run_jobs(jobs, wd, timeout=1200)
+    recs = []
+    for jid, res in results.items():
+        m = meta[jid]
+        if res.get("hang"):
+            V.add_violation({"prop": prop, "kind": "job_hang", "job": jid, "order": m["order"], "op": m["op"], "var": m["var"]},
+                            replay=next(j for j in jobs if j["id"] == jid))
+            continue
+        if not jobsuite.job_ok(res):
+            V.add_violation({"prop": prop, "kind": "job_panic", "job": jid, "panics": res.get("panics", [])[:2],
+                             "op": m["op"], "var": m["var"]}, replay=next(j for j in jobs if j["id"] == jid))
+            continue
+        out = [s["res"] for h in res["hosts"] for s in h["sinks"] if s["res"] is not None]
+        rec = {k: m[k] for k in ("ev", "id", "op", "variant", "ml", "mr", "left", "right")}
+        rec["res"] = out[0] if out else []
+        recs.append(rec)
+        recs.append({"ev": "done", "id": jid})
+    files = split_trace_files(recs, wd, "joincheck", max_events=600)
+    viols, consumed, states, _ = validate_parallel("JoinCheck", files, wd)
+    jb = {j["id"]: j for j in jobs}
+    for v in viols:
+        if v["prop"] == prop:
+            V.add_violation(v, replay={"job": jb.get(v["job"]), "order": meta[v["job"]]["order"]})
+    V.coverage["states"] += states
+    V.coverage["transitions"] += states
+    V.coverage["traces_validated_against_impl"] += len(recs) // 2
+    V.coverage["arrival_orders_replayed"] = len(recs) // 2
+    V.coverage["arrival_orders_exhaustive"] = exhaustive
+    if recs:
+        V.sample({"arrival_order": meta[recs[0]["id"]]["order"], "op": recs[0]["op"], "result": recs[0]["res"]})
+
+
+JOIN_VARIANTS = [("join", {"ship": s, "local": l, "variant": v}) for s in ("hash", "bcast") for l in ("hash", "sortmerge")
+                 for v in (("inner", "left", "outer") if s == "hash" else ("inner", "left"))]
+
+
 def C08(V, tier):
+    binary_replay(V, workdir("C08r"), tier, "C08", JOIN_VARIANTS)
     rng = random.Random(seed() + 8)
     _focused(V, tier, "C08", gen.join_programs(rng, 60 if tier == "quick" else 600), checks=("result",),
              perturb_us=400)
 
 
 def C09(V, tier):
+    binary_replay(V, workdir("C09r"), tier, "C09", [("zip", {}), ("merge", {})])
     rng = random.Random(seed() + 9)
     _focused(V, tier, "C09", gen.fan_programs(rng, 60 if tier == "quick" else 600), checks=("result",))
 
